@@ -203,6 +203,12 @@ func (s *Server) newPartition(protoPartition *proto.Partition, recovered bool, c
 	if err != nil {
 		return nil, errors.Wrap(err, "failed to create commit log")
 	}
+	// The readonly flag lives on the commit log, which was just created: carry
+	// it over from the protobuf (snapshot restore, resume of a paused
+	// partition).
+	if protoPartition.Readonly {
+		log.SetReadonly(true)
+	}
 
 	replicas := make(map[string]struct{}, len(protoPartition.Replicas))
 	for _, replica := range protoPartition.Replicas {
